@@ -82,4 +82,40 @@ def dbscan (nbrs : Option (Nat → List Nat)) (mp n : Nat) : List (Option Nat) :
   | none => List.replicate n none
   | some f => (run f mp n).1.labels
 
+/-! ## hyper-parameter glue (`dbscan/hyperparams.rs`) -/
+
+/-- `DbscanValidParams` without the distance function and the index (parameters of the model) -/
+structure Params (α : Type) where
+  minPoints : Nat
+  tolerance : α
+deriving Repr, DecidableEq
+
+inductive ParamsError where
+  | minPoints
+  | tolerance
+deriving Repr, DecidableEq
+
+/-- `DbscanParams::new(min_points, ..)`: `defaultTol` is `F::cast(1e-4)` -/
+def Params.new {α : Type} (defaultTol : α) (mp : Nat) : Params α := { minPoints := mp, tolerance := defaultTol }
+
+/-- `.tolerance(t)` -/
+def Params.withTolerance {α : Type} (p : Params α) (t : α) : Params α := { p with tolerance := t }
+
+/-- `ParamGuard::check_ref` / `check`: `min_points <= 1` is tested first, then `tolerance <= 0` -/
+def Params.check {α : Type} [LE α] [DecidableLE α] [OfNat α 0] (p : Params α) : Except ParamsError (Params α) :=
+  if p.minPoints ≤ 1 then .error .minPoints
+  else if p.tolerance ≤ 0 then .error .tolerance
+  else .ok p
+
+/-- `Transformer<DatasetBase<records, T>>`: the labels replace the targets, the records are passed on
+(`dataset.with_targets(predicted)`) -/
+def transformDataset {R T : Type} (nbrs : R → Option (Nat → List Nat)) (nrows : R → Nat) (mp : Nat)
+    (ds : R × T) : R × List (Option Nat) :=
+  (ds.1, dbscan (nbrs ds.1) mp (nrows ds.1))
+
+/-- the neighbourhood of the definition: positions `j < n` with `dist i j < tol`, in dataset order
+(what a linear scan with a strict comparison returns for row `i`; there is no row `i ≥ n`) -/
+def rangeQuery {α : Type} [LT α] [DecidableLT α] (dist : Nat → Nat → α) (tol : α) (n i : Nat) : List Nat :=
+  if i < n then (List.range n).filter fun j => decide (dist i j < tol) else []
+
 end LinfaSpec.Dbscan
